@@ -16,6 +16,7 @@ From Servitor Require Import Base Unicode Ansi Style History Feed Ui.
 From Servitor.Facts Require Import UiFacts.
 Local Open Scope Z_scope.
 From Servitor.Facts Require Import HtmlFacts FrameFacts.
+From Servitor.Facts Require Import ThreadFacts.
 
 (* the invariant holds in EVERY state reachable from the bare initial screen (see reachable_only_resizes; the meaningful statement is reachable_from_inv below) *)
 Theorem reachable_inv :
@@ -469,3 +470,356 @@ Theorem reachable_only_resizes :
   u_tasks I C s = [] /\ u_pages I C s = [] /\ u_hist I C s = h_init /\ u_buffer I C s = [].
 Proof. exact reachable_only_resizes_fact. Qed.
 Print Assumptions reachable_only_resizes.
+
+(* REFINEMENT to an abstract thread (ancestors, the opened item, replies; world-coherence hypotheses say what the oracles parents / children / harvest return on a thread whose structure is known, preload >= 1). Opening an item and letting the loads settle shows a window of its thread around position 0 *)
+Theorem open_refines :
+  forall (I : Type) (anc : I -> list I) (kids : I -> option (list I)) 
+  (C : Type) (items_of : C -> list I) (preload : Z)
+  (parents : I -> nat -> list I * option I) (children : I -> option C)
+  (harvest : C -> nat -> nat -> list I * option C * nat),
+  1 <= preload ->
+  (forall i : I, parents i 0%nat = ([], match anc i with
+  | [] => None
+  | _ :: _ => Some i
+  end)) ->
+  (forall (i : I) (q : nat),
+  (1 <= q)%nat -> parents i q = (firstn q (anc i), nth_error (anc i) (q - 1))) ->
+  (forall (i : I) (k : nat) (a : I),
+  nth_error (anc i) k = Some a -> anc a = skipn (S k) (anc i)) ->
+  (forall i : I,
+  match kids i with
+  | Some l => exists c : C, children i = Some c /\ items_of c = l
+  | None => children i = None
+  end) ->
+  (forall (c : C) (q b : nat),
+  harvest c q b =
+  (firstn q (skipn b (items_of c)),
+  if (b + q <? length (items_of c))%nat then Some c else None,
+  if (b + q <? length (items_of c))%nat then (b + q)%nat else 0%nat)) ->
+  (I -> Z -> option text) ->
+  (I -> option (list I)) ->
+  (I -> option (list I)) ->
+  (I -> option I) ->
+  (I -> option text) ->
+  (I -> option text) ->
+  (I -> option text) ->
+  forall (hook_fails : text -> option text) (s : ui I C) (r : I) (fuel : nat),
+  ui_inv I C s ->
+  u_tasks I C s = [] ->
+  (2 <= fuel)%nat ->
+  let s' :=
+  settle I C preload parents children harvest hook_fails fuel
+  (run_task I C preload parents children harvest hook_fails s (TOpen I C (OItem I C r)))
+  in
+  ui_inv I C s' /\
+  u_mode I C s' = MNormal /\
+  u_tasks I C s' = [] /\
+  (exists (k : nat) (p : page I C),
+  cur_pid I C s' = Some k /\
+  page_find I C (u_pages I C s') k = Some p /\
+  thread_page I anc kids C items_of r p /\
+  covered I anc kids C preload r p /\ cursor I C p = 0 /\ cur_item I C s' = Some r).
+Proof. exact open_refines_fact. Qed.
+Print Assumptions open_refines.
+
+(* k: once loads have settled the cursor is one position up iff the THREAD has an item there (not merely the loaded window), the highlighted item is the thread's item at the new position, page and mode are unchanged, and the window again covers preload positions around the cursor *)
+Theorem key_up_refines :
+  forall (I : Type) (anc : I -> list I) (kids : I -> option (list I)) 
+  (C : Type) (items_of : C -> list I) (preload : Z)
+  (parents : I -> nat -> list I * option I) (children : I -> option C)
+  (harvest : C -> nat -> nat -> list I * option C * nat),
+  1 <= preload ->
+  (forall i : I, parents i 0%nat = ([], match anc i with
+  | [] => None
+  | _ :: _ => Some i
+  end)) ->
+  (forall (i : I) (q : nat),
+  (1 <= q)%nat -> parents i q = (firstn q (anc i), nth_error (anc i) (q - 1))) ->
+  (forall (i : I) (k : nat) (a : I),
+  nth_error (anc i) k = Some a -> anc a = skipn (S k) (anc i)) ->
+  (forall i : I,
+  match kids i with
+  | Some l => exists c : C, children i = Some c /\ items_of c = l
+  | None => children i = None
+  end) ->
+  (forall (c : C) (q b : nat),
+  harvest c q b =
+  (firstn q (skipn b (items_of c)),
+  if (b + q <? length (items_of c))%nat then Some c else None,
+  if (b + q <? length (items_of c))%nat then (b + q)%nat else 0%nat)) ->
+  forall (select_link : I -> Z -> option text) (creators recipients : I -> option (list I))
+  (actor_of : I -> option I) (media pfp banner : I -> option text)
+  (open_link open_user : text -> opened I C) (feed_named : text -> option C)
+  (hook_fails : text -> option text) (msg_unknown_feed msg_bad_command : text -> text)
+  (s : ui I C) (r : I) (k : nat) (p : page I C) (fuel : nat),
+  ui_inv I C s ->
+  u_mode I C s = MNormal ->
+  u_tasks I C s = [] ->
+  cur_pid I C s = Some k ->
+  page_find I C (u_pages I C s) k = Some p ->
+  thread_page I anc kids C items_of r p ->
+  covered I anc kids C preload r p ->
+  (2 <= fuel)%nat ->
+  let s' :=
+  settle I C preload parents children harvest hook_fails fuel
+  (update I C preload parents children select_link creators recipients actor_of media pfp
+  banner open_link open_user feed_named msg_unknown_feed msg_bad_command s 107) in
+  ui_inv I C s' /\
+  u_mode I C s' = MNormal /\
+  u_tasks I C s' = [] /\
+  cur_pid I C s' = Some k /\
+  (exists p' : page I C,
+  page_find I C (u_pages I C s') k = Some p' /\
+  thread_page I anc kids C items_of r p' /\
+  covered I anc kids C preload r p' /\
+  cursor I C p' =
+  (if thread_hasb I anc kids r (cursor I C p - 1) then cursor I C p - 1 else cursor I C p) /\
+  cur_item I C s' = thread_at I anc kids r (cursor I C p') /\
+  (forall x : Z,
+  covered_at I anc kids C preload r p x -> covered_at I anc kids C preload r p' x)).
+Proof. exact key_up_refines_fact. Qed.
+Print Assumptions key_up_refines.
+
+(* j likewise *)
+Theorem key_down_refines :
+  forall (I : Type) (anc : I -> list I) (kids : I -> option (list I)) 
+  (C : Type) (items_of : C -> list I) (preload : Z)
+  (parents : I -> nat -> list I * option I) (children : I -> option C)
+  (harvest : C -> nat -> nat -> list I * option C * nat),
+  1 <= preload ->
+  (forall i : I, parents i 0%nat = ([], match anc i with
+  | [] => None
+  | _ :: _ => Some i
+  end)) ->
+  (forall (i : I) (q : nat),
+  (1 <= q)%nat -> parents i q = (firstn q (anc i), nth_error (anc i) (q - 1))) ->
+  (forall (i : I) (k : nat) (a : I),
+  nth_error (anc i) k = Some a -> anc a = skipn (S k) (anc i)) ->
+  (forall i : I,
+  match kids i with
+  | Some l => exists c : C, children i = Some c /\ items_of c = l
+  | None => children i = None
+  end) ->
+  (forall (c : C) (q b : nat),
+  harvest c q b =
+  (firstn q (skipn b (items_of c)),
+  if (b + q <? length (items_of c))%nat then Some c else None,
+  if (b + q <? length (items_of c))%nat then (b + q)%nat else 0%nat)) ->
+  forall (select_link : I -> Z -> option text) (creators recipients : I -> option (list I))
+  (actor_of : I -> option I) (media pfp banner : I -> option text)
+  (open_link open_user : text -> opened I C) (feed_named : text -> option C)
+  (hook_fails : text -> option text) (msg_unknown_feed msg_bad_command : text -> text)
+  (s : ui I C) (r : I) (k : nat) (p : page I C) (fuel : nat),
+  ui_inv I C s ->
+  u_mode I C s = MNormal ->
+  u_tasks I C s = [] ->
+  cur_pid I C s = Some k ->
+  page_find I C (u_pages I C s) k = Some p ->
+  thread_page I anc kids C items_of r p ->
+  covered I anc kids C preload r p ->
+  (2 <= fuel)%nat ->
+  let s' :=
+  settle I C preload parents children harvest hook_fails fuel
+  (update I C preload parents children select_link creators recipients actor_of media pfp
+  banner open_link open_user feed_named msg_unknown_feed msg_bad_command s 106) in
+  ui_inv I C s' /\
+  u_mode I C s' = MNormal /\
+  u_tasks I C s' = [] /\
+  cur_pid I C s' = Some k /\
+  (exists p' : page I C,
+  page_find I C (u_pages I C s') k = Some p' /\
+  thread_page I anc kids C items_of r p' /\
+  covered I anc kids C preload r p' /\
+  cursor I C p' =
+  (if thread_hasb I anc kids r (cursor I C p + 1) then cursor I C p + 1 else cursor I C p) /\
+  cur_item I C s' = thread_at I anc kids r (cursor I C p') /\
+  (forall x : Z,
+  covered_at I anc kids C preload r p x -> covered_at I anc kids C preload r p' x)).
+Proof. exact key_down_refines_fact. Qed.
+Print Assumptions key_down_refines.
+
+(* g returns to the opened item (it starts no load: coverage around position 0 is what opening established and windows only grow - key_center_opened_partial; the statement with full coverage for arbitrary windows is refuted by key_center_refines_refuted in ThreadFacts) *)
+Theorem key_center_refines_partial :
+  forall (I : Type) (anc : I -> list I) (kids : I -> option (list I)) 
+  (C : Type) (items_of : C -> list I) (preload : Z)
+  (parents : I -> nat -> list I * option I) (children : I -> option C)
+  (harvest : C -> nat -> nat -> list I * option C * nat),
+  (forall i : I, parents i 0%nat = ([], match anc i with
+  | [] => None
+  | _ :: _ => Some i
+  end)) ->
+  (forall (i : I) (q : nat),
+  (1 <= q)%nat -> parents i q = (firstn q (anc i), nth_error (anc i) (q - 1))) ->
+  (forall (i : I) (k : nat) (a : I),
+  nth_error (anc i) k = Some a -> anc a = skipn (S k) (anc i)) ->
+  (forall i : I,
+  match kids i with
+  | Some l => exists c : C, children i = Some c /\ items_of c = l
+  | None => children i = None
+  end) ->
+  (forall (c : C) (q b : nat),
+  harvest c q b =
+  (firstn q (skipn b (items_of c)),
+  if (b + q <? length (items_of c))%nat then Some c else None,
+  if (b + q <? length (items_of c))%nat then (b + q)%nat else 0%nat)) ->
+  forall (select_link : I -> Z -> option text) (creators recipients : I -> option (list I))
+  (actor_of : I -> option I) (media pfp banner : I -> option text)
+  (open_link open_user : text -> opened I C) (feed_named : text -> option C)
+  (hook_fails : text -> option text) (msg_unknown_feed msg_bad_command : text -> text)
+  (s : ui I C) (r : I) (k : nat) (p : page I C) (fuel : nat),
+  ui_inv I C s ->
+  u_mode I C s = MNormal ->
+  u_tasks I C s = [] ->
+  cur_pid I C s = Some k ->
+  page_find I C (u_pages I C s) k = Some p ->
+  thread_page I anc kids C items_of r p ->
+  let s' :=
+  settle I C preload parents children harvest hook_fails fuel
+  (update I C preload parents children select_link creators recipients actor_of media pfp
+  banner open_link open_user feed_named msg_unknown_feed msg_bad_command s 103) in
+  ui_inv I C s' /\
+  u_mode I C s' = MNormal /\
+  u_tasks I C s' = [] /\
+  cur_pid I C s' = Some k /\
+  (exists p' : page I C,
+  page_find I C (u_pages I C s') k = Some p' /\
+  thread_page I anc kids C items_of r p' /\
+  cursor I C p' = 0 /\
+  cur_item I C s' = thread_at I anc kids r (cursor I C p') /\
+  (forall x : Z,
+  covered_at I anc kids C preload r p x -> covered_at I anc kids C preload r p' x) /\
+  (covered_at I anc kids C preload r p 0 -> covered I anc kids C preload r p')).
+Proof. exact key_center_refines_partial_fact. Qed.
+Print Assumptions key_center_refines_partial.
+
+Theorem key_center_opened_partial :
+  forall (I : Type) (anc : I -> list I) (kids : I -> option (list I)) 
+  (C : Type) (items_of : C -> list I) (preload : Z)
+  (parents : I -> nat -> list I * option I) (children : I -> option C)
+  (harvest : C -> nat -> nat -> list I * option C * nat),
+  1 <= preload ->
+  (forall i : I, parents i 0%nat = ([], match anc i with
+  | [] => None
+  | _ :: _ => Some i
+  end)) ->
+  (forall (i : I) (q : nat),
+  (1 <= q)%nat -> parents i q = (firstn q (anc i), nth_error (anc i) (q - 1))) ->
+  (forall (i : I) (k : nat) (a : I),
+  nth_error (anc i) k = Some a -> anc a = skipn (S k) (anc i)) ->
+  (forall i : I,
+  match kids i with
+  | Some l => exists c : C, children i = Some c /\ items_of c = l
+  | None => children i = None
+  end) ->
+  (forall (c : C) (q b : nat),
+  harvest c q b =
+  (firstn q (skipn b (items_of c)),
+  if (b + q <? length (items_of c))%nat then Some c else None,
+  if (b + q <? length (items_of c))%nat then (b + q)%nat else 0%nat)) ->
+  forall (select_link : I -> Z -> option text) (creators recipients : I -> option (list I))
+  (actor_of : I -> option I) (media pfp banner : I -> option text)
+  (open_link open_user : text -> opened I C) (feed_named : text -> option C)
+  (hook_fails : text -> option text) (msg_unknown_feed msg_bad_command : text -> text)
+  (s : ui I C) (r : I) (x : Z) (fuel : nat),
+  at_pos I anc kids C items_of preload r s x ->
+  (2 <= fuel)%nat ->
+  at_pos I anc kids C items_of preload r
+  (settle I C preload parents children harvest hook_fails fuel
+  (update I C preload parents children select_link creators recipients actor_of media pfp
+  banner open_link open_user feed_named msg_unknown_feed msg_bad_command s 103)) 0.
+Proof. exact key_center_opened_partial_fact. Qed.
+Print Assumptions key_center_opened_partial.
+
+(* for EVERY sequence of k / j / g the highlighted item is the abstract walk's *)
+Theorem thread_walk_refines :
+  forall (I : Type) (anc : I -> list I) (kids : I -> option (list I)) 
+  (C : Type) (items_of : C -> list I) (preload : Z)
+  (parents : I -> nat -> list I * option I) (children : I -> option C)
+  (harvest : C -> nat -> nat -> list I * option C * nat),
+  1 <= preload ->
+  (forall i : I, parents i 0%nat = ([], match anc i with
+  | [] => None
+  | _ :: _ => Some i
+  end)) ->
+  (forall (i : I) (q : nat),
+  (1 <= q)%nat -> parents i q = (firstn q (anc i), nth_error (anc i) (q - 1))) ->
+  (forall (i : I) (k : nat) (a : I),
+  nth_error (anc i) k = Some a -> anc a = skipn (S k) (anc i)) ->
+  (forall i : I,
+  match kids i with
+  | Some l => exists c : C, children i = Some c /\ items_of c = l
+  | None => children i = None
+  end) ->
+  (forall (c : C) (q b : nat),
+  harvest c q b =
+  (firstn q (skipn b (items_of c)),
+  if (b + q <? length (items_of c))%nat then Some c else None,
+  if (b + q <? length (items_of c))%nat then (b + q)%nat else 0%nat)) ->
+  forall (select_link : I -> Z -> option text) (creators recipients : I -> option (list I))
+  (actor_of : I -> option I) (media pfp banner : I -> option text)
+  (open_link open_user : text -> opened I C) (feed_named : text -> option C)
+  (hook_fails : text -> option text) (msg_unknown_feed msg_bad_command : text -> text)
+  (s : ui I C) (r : I) (fuel : nat) (keys : list N),
+  ui_inv I C s ->
+  u_tasks I C s = [] ->
+  (2 <= fuel)%nat ->
+  Forall key_ok keys ->
+  let s0 :=
+  settle I C preload parents children harvest hook_fails fuel
+  (run_task I C preload parents children harvest hook_fails s (TOpen I C (OItem I C r)))
+  in
+  cur_item I C
+  (browse I C preload parents children harvest select_link creators recipients actor_of
+  media pfp banner open_link open_user feed_named hook_fails msg_unknown_feed
+  msg_bad_command fuel s0 keys) = thread_at I anc kids r (walk I anc kids r keys) /\
+  thread_has I anc kids r (walk I anc kids r keys) /\
+  at_pos I anc kids C items_of preload r
+  (browse I C preload parents children harvest select_link creators recipients actor_of
+  media pfp banner open_link open_user feed_named hook_fails msg_unknown_feed
+  msg_bad_command fuel s0 keys) (walk I anc kids r keys).
+Proof. exact thread_walk_refines_fact. Qed.
+Print Assumptions thread_walk_refines.
+
+(* the same from the state Subcommand(open, x) starts the program in *)
+Theorem thread_walk_from_start :
+  forall (I : Type) (anc : I -> list I) (kids : I -> option (list I)) 
+  (C : Type) (items_of : C -> list I) (preload : Z)
+  (parents : I -> nat -> list I * option I) (children : I -> option C)
+  (harvest : C -> nat -> nat -> list I * option C * nat),
+  1 <= preload ->
+  (forall i : I, parents i 0%nat = ([], match anc i with
+  | [] => None
+  | _ :: _ => Some i
+  end)) ->
+  (forall (i : I) (q : nat),
+  (1 <= q)%nat -> parents i q = (firstn q (anc i), nth_error (anc i) (q - 1))) ->
+  (forall (i : I) (k : nat) (a : I),
+  nth_error (anc i) k = Some a -> anc a = skipn (S k) (anc i)) ->
+  (forall i : I,
+  match kids i with
+  | Some l => exists c : C, children i = Some c /\ items_of c = l
+  | None => children i = None
+  end) ->
+  (forall (c : C) (q b : nat),
+  harvest c q b =
+  (firstn q (skipn b (items_of c)),
+  if (b + q <? length (items_of c))%nat then Some c else None,
+  if (b + q <? length (items_of c))%nat then (b + q)%nat else 0%nat)) ->
+  forall (select_link : I -> Z -> option text) (creators recipients : I -> option (list I))
+  (actor_of : I -> option I) (media pfp banner : I -> option text)
+  (open_link open_user : text -> opened I C) (feed_named : text -> option C)
+  (hook_fails : text -> option text) (msg_unknown_feed msg_bad_command : text -> text)
+  (w h : Z) (input : text) (r : I) (fuel : nat) (keys : list N),
+  open_user input = OItem I C r ->
+  (2 <= fuel)%nat ->
+  Forall key_ok keys ->
+  let s0 :=
+  settle I C preload parents children harvest hook_fails (S fuel)
+  (start_open I C open_user w h input) in
+  cur_item I C
+  (browse I C preload parents children harvest select_link creators recipients actor_of
+  media pfp banner open_link open_user feed_named hook_fails msg_unknown_feed
+  msg_bad_command fuel s0 keys) = thread_at I anc kids r (walk I anc kids r keys) /\
+  thread_has I anc kids r (walk I anc kids r keys).
+Proof. exact thread_walk_from_start_fact. Qed.
+Print Assumptions thread_walk_from_start.
